@@ -406,3 +406,26 @@ Definition unanswered (has_timeout : bool) (t : timed) : Prop :=
 
 Definition connect_succeeds (s : bool * (neg_result * post_state)) : Prop :=
   fst s = false /\ n_outcome (fst (snd s)) = Proceeds.
+
+(* ---- an ERROR_MESSAGE whose status is Success, answering the query ---------------------------- *)
+(* getSupportedVersion (get_supported above, as the code is) turns the status of an ERROR_MESSAGE
+   into Success when it is M_UnsupportedVersion and then only asks whether the status is Success:
+   an ERROR_MESSAGE that carries Success itself is therefore read as "1.0.1-only reader" too,
+   although the reader has rejected nothing and reported no version.
+   The repaired reading: such a reply is an unexpected response like any other ERROR_MESSAGE whose
+   status is not M_UnsupportedVersion.  strict_query maps it to one of those (status 100,
+   M_ParameterError); get_supported_strict / negotiate_strict are the repaired functions. *)
+Definition strict_query (r : reaction) : reaction :=
+  match r with
+  | ErrMsg st => if st =? StatusSuccess then ErrMsg 100 else r
+  | _ => r
+  end.
+
+Definition get_supported_strict (r : reaction) : option (version * version) :=
+  get_supported (strict_query r).
+
+Definition negotiate_strict (cfg : config) (cmax : version) (r1 r2 : reaction) : neg_result :=
+  negotiate cfg cmax (strict_query r1) r2.
+
+(* the reply is of the expected response type and carries status Success *)
+Definition expected_success (r : reaction) : Prop := exists cb mb, r = Resp cb mb StatusSuccess.
